@@ -456,6 +456,19 @@ def r15g(ctx: Context) -> None:
                     fresh = isinstance(staged, ast.Name) and any(
                         isinstance(c, ast.Call) and (dotted(c.func) or "").endswith(("NamedTemporaryFile", "mkstemp")) for c in walk_local(func.node)
                     )
+                    # the rename happens after the staging file's handle is closed: what is still in the handle's buffer
+                    # reaches the disk at close, so a rename inside the 'with' puts a short file in the user's place
+                    for with_stmt in [w for w in walk_local(func.node) if isinstance(w, (ast.With, ast.AsyncWith))]:
+                        handles = [item.optional_vars.id for item in with_stmt.items if isinstance(item.optional_vars, ast.Name)
+                                   and isinstance(item.context_expr, ast.Call) and (dotted(item.context_expr.func) or "").endswith(("NamedTemporaryFile", "open"))]
+                        inside = any(sub is node for stmt in with_stmt.body for sub in ast.walk(stmt))
+                        names_staged = isinstance(staged, ast.Name) and any(
+                            isinstance(n, ast.Assign) and any(isinstance(t, ast.Name) and t.id == staged.id for t in n.targets)
+                            and isinstance(n.value, ast.Attribute) and n.value.attr == "name" and isinstance(n.value.value, ast.Name) and n.value.value.id in handles
+                            for n in walk_local(func.node)
+                        )
+                        if inside and handles and names_staged:
+                            rule.fail(key + " [handle closed]", site.where, f"'{norm(staged)}' is renamed over the user's file while its own handle ('{handles[0]}') is still open: the buffered tail of the copy is written at close, after the rename - a run cut short in between leaves the document empty or truncated")
                     if fresh:
                         mkey = key + " [mode kept]"
                         cfg = CFG(func.node, raising=lambda n: False)
